@@ -10,3 +10,7 @@ replace_import() {
   if ! grep -q "^[[:space:]]*\(rand \|crand \)\?\"$3\"" "$1"; then echo "prep: $1 does not import $3 any more" >&2; return 1; fi
   sed "s|^\([[:space:]]*\)\([a-z]* \)\?\"$3\"|\1$4|" "$1" > "$2"
 }
+# build_rewriter <work>: builds verif-rewrite into $1/verif-rewrite
+build_rewriter() {
+  ( cd "$HERE/../../rewriter" && go build -o "$1/verif-rewrite" . ) || { echo "prep: cannot build verif-rewrite" >&2; return 1; }
+}
